@@ -38,6 +38,7 @@ TMP = c01.TMP
 ALL_FORMS = ["ndarray", "ndarray_int", "ndarray_bool", "ndarray_f32",
              "lists", "triples", "triples_zeros", "dict", "dict_zeros",
              "list_arrays", "list_arrays_mixed", "list_dicts", "list_sparse",
+             "list_sparse_csc", "list_sparse_coo", "list_sparse_lil",
              "csr", "csc", "coo",
              "lil", "dok", "bsr", "dia", "csr_unsorted", "csc_unsorted",
              "coo_dups_free_shuffled"]
@@ -175,6 +176,10 @@ def encode(rows, form):
         return out, {}
     if form == "list_sparse":
         return [sp.csr_matrix(a[i:i + 1, :]) for i in range(n)], {}
+    if form in ("list_sparse_csc", "list_sparse_coo", "list_sparse_lil"):
+        # one 1 x m sparse row per observation, in another sparse layout
+        mk = getattr(sp, form[-3:] + "_matrix")
+        return [mk(a[i:i + 1, :]) for i in range(n)], {}
     if form in ("csr", "csc", "coo", "lil", "dok", "bsr", "dia"):
         return getattr(sp, form + "_matrix")(a), {}
     if form == "csr_unsorted":
